@@ -11,6 +11,7 @@ from bitcoin.core.script import CScript, CScriptOp, CScriptInvalidError
 from bitcoin.core._bignum import bn2vch, vch2bn
 
 ID = 'C08'
+THREADSAFE = True      # cases touch no process-wide setting (no chain selection): the runner also runs them from several threads at once
 LEVEL = 'exploration'
 RULE = ('(a) token sequences (every opcode 0x4f..0xff exhaustively as singletons and pairs, integers: all of -70,000..70,000 and '
         'boundaries to +-2^80, byte strings with lengths across 0x4b/0x4c, 0xff/0x100, 0xffff/0x10000): CScript(tokens) == reference '
@@ -91,6 +92,11 @@ def check_build(case):
     alt = [bytearray(t) if isinstance(t, bytes) and k_ % 2 == 0 else t for k_, t in enumerate(libtoks)]
     if bytes(libx.call('build-bytearray-tokens', CScript, alt)[1]) != want:
         raise Violation('build/bytearray-token', 'a data token given as bytearray builds differently from the same bytes')
+    # a data token that is itself a script object (a redeem script pushed by a P2SH scriptSig) or a caller's bytes subclass:
+    # pushed as the bytes it holds
+    alt2 = [(CScript(t) if k_ % 2 else libx.UserBytes(t)) if isinstance(t, bytes) else t for k_, t in enumerate(libtoks)]
+    if bytes(libx.call('build-script-tokens', CScript, alt2)[1]) != want:
+        raise Violation('build/script-token', 'a data token given as a CScript / bytes-subclass instance builds differently from the same bytes')
     if bytes(libx.call('build-tuple', CScript, tuple(libtoks))[1]) != want:
         raise Violation('build/tuple', 'CScript(tuple of tokens) differs from CScript(list of tokens)')
     return {'nt': len(toks) >= 2, 'cls': ['build'], 'evals': 7}
